@@ -165,6 +165,9 @@ func (m *ModelServer) Dispense(_ context.Context, request *traits.DispenseReques
 	if request.Consumable == "" {
 		return nil, status.Error(codes.InvalidArgument, "request.consumable is absent")
 	}
+	if request.Quantity == nil {
+		return nil, status.Error(codes.InvalidArgument, "request.quantity is absent")
+	}
 	return m.model.DispenseInstantly(request.Consumable, request.Quantity)
 }
 
